@@ -218,9 +218,17 @@ def _run_select(ctx, run):
     if run.get('selection_sample_size'):
         kwargs['selection_sample_size'] = run['selection_sample_size']
     uni = Univariate(**kwargs)
+    cand_list = kwargs['candidates']
+    cand_ids = [id(o) for o in cand_list]
     with sterile(run['state']), RngRecorder() as rec:
         out = outcome(uni.fit, X)
     ctx.stats['fits'] += 1
+    if [id(o) for o in cand_list] != cand_ids or [id(o) for o in uni.candidates] != cand_ids:
+        ctx.violate('b_explicit_candidate_list_honoured', SUBJ_UNI,
+                    'the explicit candidate list had %d entries before fit and has %d after '
+                    '(model.candidates: %d)' % (len(cand_ids), len(cand_list),
+                                                len(uni.candidates)),
+                    n_candidates=len(cand_ids))
     # which candidates survive selection, by the fault schedule
     survivors = []
     fired = 0
@@ -446,8 +454,10 @@ def _proto_state(obj):
                 getattr(obj._inner, '_params', None) is None)
     if isinstance(obj, (str, type)):
         return ('static',)
+    cands = getattr(obj, 'candidates', None)
     return ('inst', getattr(obj, 'fitted', None), getattr(obj, '_params', None) is None,
-            getattr(obj, '_instance', None) is None)
+            getattr(obj, '_instance', None) is None,
+            None if cands is None else tuple(id(c) for c in cands))
 
 
 def _expected_type(cfg, col, j, protos):
